@@ -148,6 +148,8 @@ def corner_shapes(twosided_only=False):
     # a student who finds no project acceptable (empty first-side list), first and last in the file
     add(3, 3, 2, 2, [[], [[1], [2]], [[2, 1]]], [1, 2], [[[3], [2]], [[2, 3]]])
     add(2, 2, 2, 2, [[[2], [1]], []], [1, 2], [[[1]], [[1]]])
+    # ties of four entries on both sides (a reader that loses the tie state after the second or third member)
+    add(3, 4, 4, 2, [[[1, 2, 3, 4]], [[4], [1]], [[2]], [[3, 1]]], [1, 1, 2, 2], [[[1, 2, 3, 4]], [[4], [1, 2]]])
     if twosided_only:
         out = [s for s in out if s.lprefs is not None]
     return out
